@@ -27,6 +27,14 @@ Theorem C12_plan_project_cap : forall p, plan_ok p = true ->
 Proof. exact plan_project_cap. Qed.
 Print Assumptions C12_plan_project_cap.
 
+(* every bond between two tensors of a returned boundary layer - total size over all
+   shared indices, whether or not a compression was logged for it - is within the cap *)
+Theorem C12_plan_boundary_cap : forall p, plan_ok p = true ->
+  forall cap bonds, In (Boundary cap bonds) p ->
+  forall a b sz, In (a, b, sz) bonds -> within sz cap.
+Proof. exact plan_boundary_cap. Qed.
+Print Assumptions C12_plan_boundary_cap.
+
 (* an accepted plan consists of known primitives only *)
 Theorem C12_plan_no_unknown_primitive : forall p, plan_ok p = true -> forall k, ~ In (Unknown k) p.
 Proof. exact plan_no_unknown. Qed.
@@ -113,6 +121,8 @@ Example C12_plan_example :
               Compress 1 2 (Some 2) true 4 4 2; HandOver (Some 2) [(1, 2, 3)]] = false
   /\ plan_ok [Compress 1 2 (Some 2) true 4 4 2; Contract [2; 3] 3; HandOver (Some 2) [(1, 3, 4)]] = false
   /\ plan_ok [Contract [1; 4] 1; Unknown 7] = false
+  /\ plan_ok [Contract [1; 4] 1; Contract [2; 5] 2; Boundary (Some 2) [(1, 2, 4)]] = false
+  /\ plan_ok [Contract [1; 4] 1; Contract [2; 5] 2; Boundary (Some 4) [(1, 2, 4)]] = true
   /\ plan_ok [Contract [1; 4] 1; Canonize 4 2] = false
   /\ plan_untruncating [Compress 1 2 (Some 4) true 4 4 4; Project [1] [2] 8 9 None true 4 4 4] = true
   /\ plan_untruncating [Compress 1 2 (Some 2) true 4 4 2] = false.
